@@ -3,23 +3,23 @@
 
    parse = lexer + parser model, fmt = model of ast.Tree.String (Parser.v).  sem t = the variables (name, value) and tasks
    (name, dependencies, outputs, command lines) of a tree in order - everything except comments and docstrings. *)
-From Spok Require Import Base Lexer Parser Cst RoundTripL RoundTrip CstWf TrimProofs Layout FmtProofs.
+From Spok Require Import Base Lexer Parser Cst RoundTripL RoundTrip CstWf TrimProofs Layout FmtProofs ParserWf.
 
 (* The full statement: for EVERY input that parses, the formatted text parses and means the same. *)
-Definition C07_full_statement : Prop := forall s t, parse s = PTree t ->
+Theorem C07_format_preserves_meaning : forall s t, parse s = PTree t ->
   exists t', parse (fmt t) = PTree t' /\ sem t' = sem t.
-
-(* PARTIAL: proved for the trees whose canonical layout is admissible (tree_wf, decidable; checked on every tree the real
-   parser returns in the correspondence run).  Missing for the full statement: that every parser output satisfies tree_wf. *)
-Theorem C07_format_preserves_meaning_partial : forall s t, parse s = PTree t -> tree_wf t ->
-  exists t', parse (fmt t) = PTree t' /\ sem t' = sem t.
-Proof. exact format_preserves_meaning. Qed.
-Print Assumptions C07_format_preserves_meaning_partial.
+Proof. exact format_preserves_meaning_all. Qed.
+Print Assumptions C07_format_preserves_meaning.
 
 (* how: the formatter's output is one admissible layout of the tree with normalised comment text ... *)
 Theorem C07_fmt_is_a_layout : forall t, fmt t = render (layout t).
 Proof. exact fmt_is_a_layout. Qed.
 Print Assumptions C07_fmt_is_a_layout.
+
+(* ... every tree the parser returns has an admissible canonical layout ... *)
+Theorem C07_parser_output_is_formattable : forall s t, parse s = PTree t -> tree_wf t.
+Proof. exact parse_tree_wf. Qed.
+Print Assumptions C07_parser_output_is_formattable.
 
 (* ... and admissible layouts parse back to their structure (C06) *)
 Theorem C07_formatted_text_parses : forall t, tree_wf t -> parse (fmt t) = PTree (canon t).
